@@ -698,7 +698,6 @@ impl<'a> Searcher<'a> {
 
                                         if file_type.is_symlink() {
                                             if let Ok(resolved) = std::fs::read_link(&path) {
-                                                ok = true;
                                                 // a relative target is relative to the directory of the link
                                                 path = match path.parent() {
                                                     Some(parent) if resolved.is_relative() => {
@@ -707,6 +706,8 @@ impl<'a> Searcher<'a> {
                                                     }
                                                     _ => resolved,
                                                 };
+                                                // a link to a file, or a dangling link, is just listed
+                                                ok = path.is_dir();
                                             }
                                         } else if file_type.is_dir() {
                                             ok = true;
